@@ -431,6 +431,13 @@ def fixed_runs():
         # priority 3 pushes against priority 1
         goals.append({"path": True, "fn": "ny" if first[0] == "y" else "y", "prio": 3, "order": 1, "weight": 1, "nominal": 1})
         out.append({"k": "run", "times": [0, 1, 2], "E": 1, "p": [0], "variant": "multi", "aliases": [["y", "-ny"]], "options": {}, "goals": goals})
+    # (d) a goal function that reads a time-varying constant input of the model: priority 1 tracks it, priority 2
+    # pulls away; the per-step values kept for priority 1 are those of the right time stamps
+    for fix in (True, False):
+        out.append({"k": "run", "times": [0, 1, 2, 3], "E": 1, "p": [0], "variant": "multi", "demand": ["1", "4", "-2", "3"],
+                    "options": {"fix_minimized_values": fix},
+                    "goals": [{"path": True, "fn": "y-d", "prio": 1, "order": 2, "weight": 1, "nominal": 1},
+                              {"path": True, "fn": "y", "prio": 2, "order": 1, "weight": 1, "nominal": 1}]})
     # (c) a later priority that cannot be solved (critical goal beyond the bounds): the final result is the one
     # of the last completed priority
     for variant in ("multi", "multi_keep_soft"):
@@ -503,7 +510,9 @@ def violation(gs, fval_steps, n_times):
 def envelope_allowance(c, gs, prio_index, res, n_times):
     """per step: how far outside the target the envelope of the reported eps reaches"""
     if gs.get("critical"):
-        return [0.0] * (n_times if gs["path"] else 1)
+        # what this property asks of a critical goal is the same as of any other: not worse later than in the
+        # solution of its own priority (that it is met there at all is C04's clause, checked there)
+        return violation(gs, fsteps(gs, res, n_times), n_times)
     same = [g for g in c["goals"] if int(Fraction(str(g["prio"]))) == int(Fraction(str(gs["prio"]))) and g["path"] == gs["path"]]
     j = [id(g) for g in same].index(id(gs))
     nm = ("path_eps_%d_%d" if gs["path"] else "eps_%d_%d") % (prio_index, j)
